@@ -191,9 +191,44 @@ pub fn parser_reconfig(p: Proto, layer: Layer, default_parser: bool) -> Vec<Obs>
     out
 }
 
+/// core layer: one `Paseto::builder()` object issuing two tokens; both must open with the builder's
+/// footer / assertion and return the message, neither may open without them
+pub fn core_builder_reuse(p: Proto) -> Vec<Obs> {
+    let key = domains::key_pool(p)[0].clone();
+    let seed = if p.is_local() { domains::seeds(p)[2].clone() } else { vec![] };
+    let msg = "{\"data\":\"core reuse \u{00e9}\"}";
+    let (f, a) = ("footer-one", "{\"assertion\":\"one\"}");
+    let a_opt = if p.has_assertion() { Some(a) } else { None };
+    let toks = adapter::core_issue_twice(p, &key.sk, &seed, msg, Some(f), a_opt);
+    let mut out = Vec::new();
+    for (i, t) in toks.iter().enumerate() {
+        let case = json!({"kind": "core-builder-reuse", "proto": p, "issue_no": i + 1});
+        let Out::Ok(token) = t else {
+            out.push(Obs { dim: Dim::RoundTrip, what: format!("core layer, issue #{} from one reused Paseto builder", i + 1), expect_ok: true, got_ok: false, got: t.short(), case });
+            continue;
+        };
+        let mut trials: Vec<(Dim, &str, Option<&str>, Option<&str>, bool)> = vec![(Dim::RoundTrip, "its own footer/assertion", Some(f), a_opt, true), (Dim::Footer, "no footer", None, a_opt, false)];
+        if p.has_assertion() {
+            trials.push((Dim::Assertion, "no assertion", Some(f), None, false));
+        }
+        for (dim, what, pf, pa, expect) in trials {
+            let o = adapter::core_present(p, &key.pk, token, pf, pa);
+            let ok = match &o {
+                Out::Ok(m) => !expect || m == msg,
+                _ => false,
+            };
+            out.push(Obs { dim, what: format!("core layer, token #{} from one reused Paseto builder, presented with {}", i + 1, what), expect_ok: expect, got_ok: ok, got: o.short(), case: case.clone() });
+        }
+    }
+    if p.is_local() && toks.len() == 2 && toks[0].ok().is_some() && toks[0].ok() != toks[1].ok() {
+        out.push(Obs { dim: Dim::RoundTrip, what: "core layer: the second token from one reused Paseto builder (same key, nonce, message, footer, assertion) equals the first".into(), expect_ok: true, got_ok: false, got: "tokens differ".into(), case: json!({"kind": "core-builder-reuse", "proto": p, "issue_no": 2}) });
+    }
+    out
+}
+
 /// everything for one protocol: (layer is Generic or Prelude; the prelude parser in both flavours)
 pub fn all_for(p: Proto) -> Vec<Obs> {
-    let mut v = Vec::new();
+    let mut v = core_builder_reuse(p);
     for layer in [Layer::Generic, Layer::Prelude] {
         v.extend(builder_reuse(p, layer));
         v.extend(parser_reuse_keys(p, layer, false));
